@@ -2,6 +2,7 @@ mod c02;
 mod c04;
 mod c11;
 mod c12;
+mod c13serve;
 mod c14;
 mod c15;
 mod c16;
@@ -264,6 +265,12 @@ fn main() {
                     Box::new(props_session::c13(&known, true)),
                     Tiered { quick: lim(3, 2, true, 40), thorough: lim(4, 3, true, 500) },
                     "graph",
+                ),
+                (
+                    "serve-pipelined".into(),
+                    Box::new(c13serve::scenario(&known, true)),
+                    Tiered { quick: lim(2, 2, false, 40), thorough: lim(3, 2, false, 500) },
+                    "tree",
                 ),
                 (
                     "core-alphabet".into(),
